@@ -109,7 +109,7 @@ pub fn mk_null() -> File {
 /// Harness-level: let virtual time pass (other entities run meanwhile).
 pub fn advance(ns: u64) {
     let t = me();
-    let d = sim().k.now + ns;
+    let d = sim().k.now.saturating_add(ns);
     sched_block(t, Wait::Never, Some(d));
 }
 
@@ -117,7 +117,7 @@ pub fn advance(ns: u64) {
 /// reaped) or `max_ns` of virtual time passed. Returns true when gone.
 pub fn until_gone(pid: i32, max_ns: u64) -> bool {
     let t = me();
-    let d = sim().k.now + max_ns;
+    let d = sim().k.now.saturating_add(max_ns);
     matches!(sched_block(t, Wait::ProcGone(pid), Some(d)), Woke::Ready)
 }
 
